@@ -141,16 +141,24 @@ Theorem C07_accept_required_posonly : forall e a,
 Proof. exact accept_required_posonly. Qed.
 Print Assumptions C07_accept_required_posonly.
 
-(* Tie to the current source: the "takes extra (required) parameter" loop of
-   Signature.can_assign, as translated from signature.py on this run
-   (Gen/BinderShape.v, gen_extra_required_ok), is the one of the model. *)
-Theorem C07_sca_uses_generated_loop : forall e a,
-  sca e a = match sca_loop a 0 (mkC [] [] [] []) e with
+(* Tie to the current source.  harness/translate/binder.py regenerates from signature.py,
+   on every run, the five per-kind arms of the comparison loop of Signature.can_assign
+   (gen_sca_step: symbolic execution over the consumed-sets and the obligation list) and
+   the final "takes extra (required) parameter" loop (gen_extra_required_ok).  The hand
+   model is PROVED equal to them: all theorems of this file are about what the source says
+   now, and a behaviour-preserving refactor of can_assign re-proves. *)
+Require Import PV.Binder.SigAssignCore.
+Theorem C07_gen_sca_step_is_model : forall a i st m, gen_sca_step a i st m = sca_step a i st m.
+Proof. exact gen_sca_step_is_model. Qed.
+Print Assumptions C07_gen_sca_step_is_model.
+
+Theorem C07_sca_is_generated : forall e a,
+  sca e a = match gen_sca_loop a 0 (mkC [] [] [] []) e with
             | None => None
             | Some st => if forallb (gen_extra_required_ok st) a then Some (rev (obl st)) else None
             end.
-Proof. exact sca_uses_generated_loop. Qed.
-Print Assumptions C07_sca_uses_generated_loop.
+Proof. exact sca_is_generated. Qed.
+Print Assumptions C07_sca_is_generated.
 
 (* Typed half, connected to the Core value model: annotations = nominal classes of the
    class table generated from the running implementation (Gen/ClassTable.v), acceptance =
